@@ -1,6 +1,10 @@
 use caoverif::runner::{run_engine, Opts};
 
 fn main() {
+    if std::env::args().nth(1).as_deref() == Some("selftest") {
+        println!("caoverif-selftest-ok");
+        return;
+    }
     // the reference interpreter recurses; give the worker a roomy stack (sanitizer frames are large)
     let mb: usize = std::env::var("CAOVERIF_STACK_MB").ok().and_then(|s| s.parse().ok()).unwrap_or(256);
     let h = std::thread::Builder::new().stack_size(mb << 20).spawn(real_main).expect("spawn worker thread");
@@ -36,13 +40,13 @@ fn real_main() -> i32 {
         "total" => run_engine(&mut caoverif::e_total::TotalEngine {}, &opts),
         "gc" => {
             let san = opts.x("sanitizer").is_some();
-            let mut e = caoverif::e_gc::GcEngine::new(san, opts.x_u64("max-singles", 400) as usize);
+            let mut e = caoverif::e_gc::GcEngine::new(san, opts.x_u64("max-singles", 400) as usize, opts.x("source").unwrap_or("mixed"));
             run_engine(&mut e, &opts)
         }
         "bytecode" => run_engine(&mut caoverif::e_bytecode::BytecodeEngine {}, &opts),
         "budget" => run_engine(&mut caoverif::e_budget::BudgetEngine {}, &opts),
         "lifecycle" => {
-            let mut e = caoverif::e_lifecycle::LifecycleEngine { property: opts.x("property").unwrap_or("c17").to_string() };
+            let mut e = caoverif::e_lifecycle::LifecycleEngine { light: opts.x("light").is_some(), property: opts.x("property").unwrap_or("c17").to_string() };
             run_engine(&mut e, &opts)
         }
         "laws" => run_engine(&mut caoverif::e_laws::LawsEngine {}, &opts),
